@@ -10,7 +10,7 @@
 From Coq Require Import List NArith PArith Bool Arith FMapPositive.
 From OxiVerif Require Import DD.Table DD.TableExtra DD.TableProofs DD.Build DD.BuildProofs
   DD.FamSpec DD.FamSpecProofs DD.ZbddOps DD.ZbddOpsProofs DD.ZbddSubsetProofs DD.ZbddSoundProofs
-  DD.ZbddVars DD.ZbddVarsProofs DD.ZbddExamples.
+  DD.ZbddVars DD.ZbddVarsProofs DD.ZbddExamples DD.ZbddThms.
 Import ListNotations.
 
 (** the executable checker run on real snapshots decides the invariant assumed below *)
@@ -30,13 +30,7 @@ Theorem C09_set_expressions : forall (F G : fam) (v : nat) (S : lset),
      (exists S0, In S0 F /\ ~ In v S0 /\ S = sinsert v S0) \/
      (exists S0, In S0 F /\ In v S0 /\ S = sremove v S0)) /\
   (In S (f_make_node v F G) <-> In S G \/ exists S0, In S0 F /\ S = sinsert v S0).
-Proof.
-  intros F G v S.
-  split; [apply in_f_empty|]. split; [apply in_f_base|]. split; [apply in_f_singleton|].
-  split; [apply in_f_union|]. split; [apply in_f_intsec|]. split; [apply in_f_diff|].
-  split; [apply in_f_subset0|]. split; [apply in_f_subset1|]. split; [apply in_f_change|].
-  apply in_f_make_node.
-Qed.
+Proof. exact c09_set_expressions_thm. Qed.
 Print Assumptions C09_set_expressions.
 
 (** [sremove] / [sinsert] are set difference / union with a singleton (on increasing lists) *)
@@ -44,10 +38,7 @@ Theorem C09_set_ops : forall v S x,
   (In x (sremove v S) <-> In x S /\ x <> v) /\ (In x (sinsert v S) <-> x = v \/ In x S) /\
   (forall lo, incr_from lo S -> incr_from lo (sremove v S)) /\
   (forall lo, incr_from lo S -> lo <= v -> incr_from lo (sinsert v S)).
-Proof.
-  intros v S x. split; [apply in_sremove|]. split; [apply in_sinsert|].
-  split; [intros lo; apply incr_from_sremove | intros lo; apply incr_from_sinsert].
-Qed.
+Proof. exact c09_set_ops_thm. Qed.
 Print Assumptions C09_set_ops.
 
 (** the comparison used by the driver decides "same members" *)
@@ -125,12 +116,7 @@ Theorem C09_apply_sound : forall gt C cget cadd, zlossy C cget cadd ->
            | ZIntsec => f_intsec F G
            | ZDiff => f_diff F G
            end).
-Proof.
-  intros gt C cget cadd HL op fuel s c f g B O Of Og Hf.
-  destruct (zapply_sound gt C cget cadd HL op fuel s c f g B O Of Og Hf)
-    as (s' & c' & r & F & G & R & E & B' & X & O' & Or & EF & EG & ER & Hq).
-  exists s', c', r, F, G, R. repeat (split; [assumption|]). destruct op; exact Hq.
-Qed.
+Proof. exact c09_apply_sound_thm. Qed.
 Print Assumptions C09_apply_sound.
 
 (** subset0, subset1, change ([vl] = level of variable [var]) *)
@@ -148,12 +134,7 @@ Theorem C09_subset_sound : forall C cget cadd, zlossy C cget cadd ->
            | ZSubset1 => f_subset1 vl F
            | ZChange => f_change vl F
            end).
-Proof.
-  intros C cget cadd HL op fuel s c f var B O Of Hv Hf.
-  destruct (zsubset_sound C cget cadd HL op fuel s c f var B O Of Hv Hf)
-    as (vl & s' & c' & r & F & R & Ev & E & B' & X & O' & Or & EF & ER & Hq).
-  exists vl, s', c', r, F, R. repeat (split; [assumption|]). destruct op; exact Hq.
-Qed.
+Proof. exact c09_subset_sound_thm. Qed.
 Print Assumptions C09_subset_sound.
 
 (** empty, base *)
@@ -192,7 +173,7 @@ Print Assumptions C09_make_node_sound.
 (** the cache instances satisfy the only assumption made about caches *)
 Theorem C09_caches : zlossy zacache zac_get zac_add /\ zlossy unit znc_get znc_add /\
   (forall s, ZCacheOK zacache zac_get s []) /\ (forall s c, ZCacheOK unit znc_get s c).
-Proof. split; [exact zac_lossy|]. split; [exact znc_lossy|]. split; [exact zac_empty_ok | exact znc_ok]. Qed.
+Proof. exact c09_caches_thm. Qed.
 Print Assumptions C09_caches.
 
 (** add_vars / any growth that keeps the nodes: families are stable ... *)
@@ -256,10 +237,5 @@ Theorem C09_example :
   zout (zsubset_top zacache zac_get zac_add (S (nlevels ex_z3)) ex_z3 [] ZChange (RN 3) 1)
     = Some (5, RN 5, Some [[0]; [1; 2]; []]) /\
   ZbddOK ex_z4 /\ grows ex_z3 ex_z4.
-Proof.
-  split; [exact ex_z3_ok|]. split; [exact ex_z3_cache_ok|].
-  split; [apply ex_z3_fams|].
-  split; [apply ex_z3_binary|]. split; [apply ex_z3_unary|]. split; [apply ex_z3_unary|].
-  exact ex_z4_grows.
-Qed.
+Proof. exact c09_example_thm. Qed.
 Print Assumptions C09_example.
